@@ -81,6 +81,41 @@ def stamp_tie(ck, seed, n):
     return len(pairs), [(t, d.get(t)) for t in bad], None
 
 
+def large_index(tf, sizes=(2100, 4300)):
+    """an index of some thousand entries with runs of tied instants (three points each): every comparison operator asked at the instants around the
+    entries n-4096, n-2048, n-1024, n/2, the first and the last, and half a second beside them; count / search through the index must be what the
+    plain reading of the stored points says.  -> (failing inputs, number of queries checked)"""
+    import operator as _op
+    from datetime import datetime as _dt, timedelta as _td, timezone as _tz
+    bad, checked = [], 0
+    base = _dt(2021, 3, 1, tzinfo=_tz.utc)
+    ops = [("==", _op.eq), ("!=", _op.ne), ("<", _op.lt), ("<=", _op.le), (">", _op.gt), (">=", _op.ge)]
+    for n in sizes:
+        for width, shift in ((3, 0), (3, 1), (5, 2)):
+            times = [base + _td(seconds=(i + shift) // width) for i in range(n)]
+            db = tf.TinyFlux(storage=tf.storages.MemoryStorage)
+            db.insert_multiple([tf.Point(time=t, measurement="m", tags={"i": str(i % 7)}, fields={"v": i}) for i, t in enumerate(times)])
+            marks = sorted({max(0, min(n - 1, m + d)) for m in (0, n - 4096, n - 2048, n - 1024, n // 2, n - 1) for d in (-width, -1, 0, 1, width)})
+            for m in marks:
+                for probe in (times[m], times[m] + _td(microseconds=500000)):
+                    for name, f in ops:
+                        q = f(tf.TimeQuery(), probe)
+                        want = sum(1 for t in times if f(t, probe))
+                        try:
+                            got = db.count(q)
+                            got2 = len(db.search(q & (tf.TagQuery().i == "3")))
+                        except Exception as e:  # noqa
+                            got, got2 = type(e).__name__, None
+                        want2 = sum(1 for i, t in enumerate(times) if f(t, probe) and i % 7 == 3)
+                        checked += 1
+                        if (got != want or got2 != want2) and len(bad) < 2:
+                            bad.append({"points": f"{n} points in one insert_multiple (memory), point i at 2021-03-01T00:00:00Z + ((i + {shift}) // {width}) s, tag i = i % 7",
+                                        "query": f"TimeQuery() {name} {probe.isoformat()}", "index_valid": db.index.valid, "count": got, "plain_reading": want,
+                                        "len(search(query & (TagQuery().i == '3')))": got2, "plain_reading_of_that": want2})
+            db.close()
+    return bad, checked
+
+
 def main(tier, seed):
     ck = Check("C08", tier, seed)
     b = ck.build_proofs("Prop_C08", extra_targets=["Run.vo"])
@@ -123,6 +158,9 @@ def main(tier, seed):
             divergences.append((base + nums[j], nums[j + 1]))
     spec_bad, spec_checked = dbtie.direct_oracle(cases)
     stamp_n, stamp_bad, stamp_err = stamp_tie(ck, seed, 1500 if tier == "quick" else 12000)
+    big_bad, big_checked = large_index(use_impl())
+    for item in big_bad[:1]:
+        ck.violation({"kind": "failing-input", "why": "a time comparison answered through a large index differs from the plain reading of the stored points", **item})
     if not b["ok"]:
         ck.violation({"kind": "proof-broken", "what_no_longer_checks": f"Prop_C08.v {b['theorems']}", "log": b["log"][-1500:], "forbidden": b["forbidden"]}, no_input=True)
     if stamp_err:
@@ -177,7 +215,7 @@ def main(tier, seed):
         "float_stamps_compared_bit_for_bit": stamp_n, "instants_read_back_through_get_timestamps": stamp_n, "float_stamp_mismatches": len(stamp_bad),
         "float_stamp_rule": "points at the range ends, +-2^k seconds and +-2^k microseconds (+-2 us around each) and random instants are inserted; the floats the index then holds "
                             "(index._timestamps) must equal Stamp.stamp of the instant bit for bit (compared inside Coq against hexadecimal float literals)",
-        "steps_compared_with_documented_meaning": spec_checked, "documented_meaning_mismatches": len(spec_bad),
+        "large_index_queries_checked": big_checked, "steps_compared_with_documented_meaning": spec_checked, "documented_meaning_mismatches": len(spec_bad),
         "traces_validated_against_impl": len(cases) - len({ci for ci, _ in divergences}),
         "samples": [{"TZ": zone_of[0], "ops": cases[0][2][:3]}] if cases else [],
     }
